@@ -12,11 +12,11 @@ func families(thorough bool) []*family {
 	for _, t := range numTypes() {
 		fs = append(fs, famConv(t, thorough))
 	}
-	fs = append(fs, famStrConv(), famStr(), famPanic())
+	fs = append(fs, famStrConv(), famStr(), famPanic(), famTypes())
 	if thorough {
-		fs = append(fs, famSlice(4), famCF(1), famCF(2), famCF(3))
+		fs = append(fs, famSlice(4), famMaps(4), famCF(1), famCF(2), famCF(3))
 	} else {
-		fs = append(fs, famSlice(3), famCF(1), famCF(2))
+		fs = append(fs, famSlice(3), famMaps(3), famCF(1), famCF(2))
 	}
 	for _, t := range numTypes() {
 		fs = append(fs, famConst(t))
